@@ -11,6 +11,7 @@ input (stdin):
   lower <abc>                     print `simplifyFunc` of every function read so far; flags a = round always,
                                   b = MULO rows present, c = fresh return temporaries (`010` = mir.c as it is)
   run <entry> <hex a0..a3>        MirCore on the program as written; entry is `f (p buf, i64 a0..a3)`
+  allocafeat <abc>                per function: the model of func_alloca_features on the model-simplified body
   ecall <entry> <hex args>        the same for an entry that takes exactly these integer arguments
   ecalls <0|1> <entry> <hex args> … on the model-simplified program
   runs <entry> <hex a0..a3>       MirCore on the model-simplified program
@@ -316,6 +317,13 @@ def step (st : DState) (toks : List String) : DState × Option String :=
   | "run" :: entry :: args =>
     let P : Prog String := st.funcs.map (·.1)
     (st, some (runEntry P id entry (args.map fun h => BitVec.ofNat 64 (parseHexN h))))
+  | ["allocafeat", v] =>
+    let out := st.funcs.map fun (f, _) =>
+      let sf := simplifyFunc (optsOf v) f
+      let a := allocaFeatures sf.body
+      let top := match a.top with | some (_, c) => s!"{c.toNat}" | none => "-"
+      s!"A {f.name} top={top} used={if a.topUsed then 1 else 0} nontop={if a.nonTop then 1 else 0} brackets={inlineBrackets sf.body}"
+    (st, some ("\n".intercalate out))
   | "ecall" :: entry :: args =>
     let P : Prog String := st.funcs.map (·.1)
     (st, some (runEntry P id entry (args.map fun h => BitVec.ofNat 64 (parseHexN h)) false))
